@@ -140,6 +140,15 @@ def mutations(h, sigma):
                     out.append((f"swapfield{sep}{j}", sep.join(sw)))
             out.append((f"extrasep{sep}", h + sep))
             out.append((f"dblsep{sep}", h.replace(sep, sep + sep, 1)))
+    # a separator MOVED by up to three places (the neighbouring fields trade characters, their concatenation is unchanged)
+    for sep in "$:|":
+        for i, ch in enumerate(h):
+            if ch == sep and 0 < i < n - 1:
+                rest = h[:i] + h[i + 1:]
+                for k in (-3, -2, -1, 1, 2, 3):
+                    j = i + k
+                    if 0 < j < len(rest) and sep not in rest[min(i, j):max(i, j)]:
+                        out.append((f"movesep{sep}@{i}:{k:+d}", rest[:j] + sep + rest[j:]))
     # parameter lists ('k=v,k=v,...' inside one $-field): every re-ordering of the items, and every numeric item shadowed
     # by the same key with another value (in front of it: "last one wins" parsers; behind it: "first one wins")
     if not h.startswith("$scram$"):  # (scram's list is a set of digests, one per algorithm: its order carries nothing)
